@@ -179,6 +179,18 @@ def gen_sequence(dfols, rng, length, with_h):
                 for pid in list(R.coords):
                     R.coords[pid] = R.coords[pid] - shift
                 real.append("ok " + R.digest())
+            elif c < 0.76:
+                # save the incumbent exactly as Controller.soft_restart does: pass the model's own row (a view)
+                k0 = int(md.kopt)
+                xabs = md.xopt(abs_coordinates=True)
+                rview = md.ropt()
+                pid = R.pid_of(md.points[k0, :], R.coords)     # the saved point IS the incumbent: same identity
+                descr.append(("saveopt", pid))
+                lines.append("msave %d %s %d %d %s" % (pid, fkey(R.objective(rview, xabs)), int(md.nsamples[k0]), int(md.eval_num[k0]),
+                                                        " ".join(fbits_raw(t) for t in rview)))
+                R.abs_saved[pid] = xabs.copy()
+                acc = md.save_point(xabs, rview, int(md.nsamples[k0]), int(md.eval_num[k0]), x_in_abs_coords=True)
+                real.append("ok saved=%d %s" % (1 if acc else 0, R.digest()))
             elif c < 0.85:
                 x = np.round(rng.normal(size=R.n), 3)
                 r = rand_resid(rng, R.m, R.pool)
@@ -302,6 +314,7 @@ def search_one(dfols, rng, length, with_h):
     shadow = [{"label": 1, "samples": [md.fval_v[0, :].copy()], "x": np.zeros(R.n)}]
     kopt_guard_ok = True      # False once the incumbent's row was overwritten by a worse point (or kopt update disallowed)
     best_offered_saved = None
+    saved_shadow = [None]     # what was handed to the last ACCEPTED save_point: (resid copy, ns, label)
     en = 1
     hist = []
 
@@ -337,6 +350,14 @@ def search_one(dfols, rng, length, with_h):
             return ("C17:final-vs-incumbent", "get_final_results obj=%r worse than incumbent %r" % (obj, md.objval[md.kopt]))
         if md.objsave is not None and not better(float(obj), float(md.objsave)):
             return ("C17:final-vs-saved", "get_final_results obj=%r worse than saved %r" % (obj, md.objsave))
+        if saved_shadow[0] is not None and md.rsave is not None:
+            r0, ns0, en0 = saved_shadow[0]
+            if md.rsave.tobytes() != r0.tobytes() or int(md.nsamples_save) != ns0 or int(md.eval_num_save) != en0:
+                return ("C17:saved-point-corrupted:" + opname, "saved residual / sample count / label changed after save_point accepted them (after %s)" % opname)
+            want = R.objective(md.rsave, md.xsave)
+            tol = 0.0 if R.h is None else 1e-12 * (1.0 + abs(want))
+            if not (want == float(md.objsave) or (want != want and md.objsave != md.objsave) or abs(want - float(md.objsave)) <= tol):
+                return ("C17:saved-obj-matches:" + opname, "objsave=%r but sumsq(rsave)+h=%r (after %s)" % (md.objsave, want, opname))
         if best_offered_saved is not None and md.objsave is not None and not better(float(md.objsave), best_offered_saved):
             return ("C17:save-keeps-best", "objsave=%r but %r was offered to save_point" % (md.objsave, best_offered_saved))
         return None
@@ -410,7 +431,20 @@ def search_one(dfols, rng, length, with_h):
                 en += 1
                 v = R.objective(r, x)
                 hist.append(("save", x.tolist(), r.tolist(), ns, en))
-                md.save_point(x, r, ns, en, x_in_abs_coords=True)
+                if rng.random() < 0.4:
+                    # as Controller.soft_restart: save the incumbent, passing the model's own row (a view)
+                    k0 = int(md.kopt)
+                    x = md.xopt(abs_coordinates=True)
+                    r = md.ropt()
+                    ns, lab = int(md.nsamples[k0]), int(md.eval_num[k0])
+                    v = R.objective(r, x)
+                    rcopy = r.copy()
+                    if md.save_point(x, r, ns, lab, x_in_abs_coords=True):
+                        saved_shadow[0] = (rcopy, ns, lab)
+                else:
+                    rcopy = r.copy()
+                    if md.save_point(x, r, ns, en, x_in_abs_coords=True):
+                        saved_shadow[0] = (rcopy, ns, en)
                 if best_offered_saved is None or better(v, best_offered_saved):
                     best_offered_saved = v
                 name = "save_point"
